@@ -107,6 +107,46 @@ def classify(s, public):
                 return ("public-%s-no-TypeNameError" % which, str(raised))
             if want is not None and raised == "TypeNameError":
                 return ("public-%s-TypeNameError-on-valid" % which, "")
+        # the same with a codec registered (documented extension point) under
+        # the whole string as its key: acceptance and the tree must still
+        # come from the grammar, not from the codec table
+        hits = []
+
+        class Marker(ser.Codec):
+            @staticmethod
+            def decode(raw_bytes, **kw):
+                hits.append(tuple(kw.get("subtypes", ())))
+                return "MARKER"
+
+            @staticmethod
+            def encode(out, item, **kw):
+                hits.append(tuple(kw.get("subtypes", ())))
+
+        S2 = ser.Serialization()
+        S2.codecs[s] = Marker
+        for which in ("decode", "encode"):
+            del hits[:]
+            try:
+                if which == "decode":
+                    S2.decode(b"", s)
+                else:
+                    S2.encode(io.BytesIO(), 0, s)
+                raised = None
+            except ser.TypeNameError:
+                raised = "TypeNameError"
+            except Exception as e:  # noqa
+                raised = type(e).__name__
+            if want is None and raised != "TypeNameError":
+                return ("registered-key-%s-no-TypeNameError" % which,
+                        str(raised))
+            if want is not None and raised == "TypeNameError":
+                return ("registered-key-%s-TypeNameError-on-valid" % which, "")
+            if want is not None and want[1] and hits:
+                # a composite name: its tree has root want[0] != s, so the
+                # codec keyed by the whole string must not have been used
+                return ("registered-key-%s-bypasses-parse" % which,
+                        "codec keyed %r was invoked for the composite name"
+                        % (s,))
     return None
 
 
